@@ -20,7 +20,8 @@ RULE = ('2-4 structures derived from a common parent (3-10 residues x 1-4 atoms,
         'so intersect(match=...) is distinguished from intersect(). Non-trivial: the intersection is a proper non-empty subset of some '
         'structure.')
 ASSUMPTIONS = ['SQLite INNER JOIN ... ON = nested-loop join filtered by the ON clause (order unspecified)']
-TRUSTED = []
+TRUSTED = ['intersect(): the Model driver runs Model.intersect with the concrete round trip Model.textRoundtrip; the Spec driver uses the '
+           'round trip on representable values (model number reset)']
 
 NAMES = ['N', 'CA', 'C', 'O', 'CB']
 RESN = ['ALA', 'GLY', 'TRP']
@@ -117,6 +118,8 @@ def search_cases(ctx):
 
 
 def driver_line(c):
+    if c['how'] == 'intersect':
+        return {'op': 'intersect', 'db': c['db'], 'match': c['match']}
     return {'op': 'intersection', 'db': c['db'], 'column': c['column'], 'match': c['match']}
 
 
@@ -165,6 +168,8 @@ def norm(c, x):
     """model / spec answer in the same canonical form"""
     if isinstance(x, str):
         return x
+    if isinstance(x, dict) and 'tabs' in x:            # a database: the intersected one
+        return {'names': [t['name'] for t in x['tabs']], 'tuples': aligned([t['rows'] for t in x['tabs']])}
     return aligned(x)
 
 
@@ -173,16 +178,7 @@ def agree_model(c, out, model):
         return 'discard'
     m = norm(c, model)
     if c['how'] == 'intersect':
-        if is_err(out) or isinstance(m, str):
-            if isinstance(m, str) and m == 'ERR:Other:OperationalError' and is_err(out):
-                return True
-            # an empty intersection cannot be turned into a database (IndexError on the empty record list)
-            if is_err(out) and m == []:
-                return True
-            return f'implementation {short(out)} model {short(m)}'
-        if out['names'] != [t['name'] for t in c['db']['tabs']]:
-            return f'table names {out["names"]}'
-        return True if out['tuples'] == m else f'intersect(): tables {short(out["tuples"])} model {short(m)}'
+        return True if out == m else f'intersect(): implementation {short(out)} model {short(m)}'
     return True if out == m else f'implementation {short(out)} model {short(m)}'
 
 
@@ -193,9 +189,11 @@ def agree_spec(c, out, spec):
         return True if is_err(out) else f'implementation {short(out)} where the property demands an error'
     s = norm(c, spec)
     if c['how'] == 'intersect':
+        if s == 'EMPTY':
+            return True if is_err(out) else f'intersect() returned {short(out)} for an empty intersection'
         if is_err(out):
-            return True if s == [] else f'intersect() raised {out} on a non-empty intersection'
-        return True if out['tuples'] == s else f'intersect(): tables {short(out["tuples"])} property {short(s)}'
+            return f'intersect() raised {out} on a non-empty intersection'
+        return True if out == s else f'intersect(): tables {short(out)} property {short(s)}'
     return True if out == s else f'implementation {short(out)} property {short(s)}'
 
 
